@@ -6,12 +6,14 @@ set -u
 id=$1; tier=${2:-quick}; prop=${id%%-*}
 d=/verif/seeded/$id
 wt=/tmp/rs.$id
-rm -rf $wt $wt.build $wt.out
+rm -rf $wt $wt.build $wt.out $wt.verif
 git -C /repo worktree add -q --detach $wt HEAD || exit 2
-trap "git -C /repo worktree remove --force $wt 2>/dev/null; rm -rf $wt $wt.build $wt.out" EXIT
+trap "git -C /repo worktree remove --force $wt 2>/dev/null; rm -rf $wt $wt.build $wt.out $wt.verif" EXIT
 git -C $wt apply $d/patch.diff || { echo "$id: patch does not apply"; exit 2; }
 mkdir -p $wt.build; cp -r /verif/.build/target $wt.build/target 2>/dev/null
-cd /verif && out=$(VERIF_REPO=$wt VERIF_BUILD=$wt.build VERIF_OUT=$wt.out ./vcheck "$prop" "$tier" 2>&1); rc=$?
+# (the check runs from a private copy of the checking machinery: the specifications may be edited while a sweep is under way)
+mkdir -p $wt.verif; cp -r /verif/spec /verif/driver /verif/vcheck /verif/known_findings.json /verif/shim $wt.verif/ 2>/dev/null
+cd $wt.verif && out=$(VERIF_REPO=$wt VERIF_BUILD=$wt.build VERIF_OUT=$wt.out ./vcheck "$prop" "$tier" 2>&1); rc=$?
 nv=$(echo "$out" | grep -c "^VIOLATION")
 echo "$id: check exit=$rc violations(classes)=$nv  $(echo "$out" | grep -E "TOOL-ERROR" | head -1)"
 echo "$out" | grep "^VIOLATION" | head -2 | cut -c1-260
